@@ -514,7 +514,7 @@ fn explore(ctx: &mut Ctx) {
     let thorough = ctx.tier.is_thorough();
     // Direction 1: catalogue + small scope of every structured type.
     let mut written: Vec<Desc> = catalogue::catalogue(true, ctx.seed_pattern());
-    let n = ctx.tier.pick(12, 20);
+    let n = ctx.tier.pick(14, 20);
     for len in 0..=n {
         for word in 0..(1u64 << len) {
             let bits = BitsDesc::Word { len, word };
@@ -573,7 +573,7 @@ fn explore(ctx: &mut Ctx) {
 
     // Direction 2: document-written files with every admissible writer-side choice.
     let mut docs: Vec<Case> = Vec::new();
-    let n2 = ctx.tier.pick(10, 16);
+    let n2 = ctx.tier.pick(12, 16);
     for len in 0..=n2 {
         for word in 0..(1u64 << len) {
             let bits = BitsDesc::Word { len, word };
